@@ -318,6 +318,81 @@ func runC04(r *vk.Run) {
 	})
 
 	phaseReuse(r)
+	phaseFlaky(r, "C04")
+	// a window that ends in the middle of the logs, not on a whole second, in front of a daemon that honours
+	// since / until: whatever bounds the client sends, every record the daemon serves that lies inside the
+	// window is delivered, once, in its container's own order -- also when a container's clock stepped back
+	// and a record inside the window follows one that lies past its end
+	r.Phase("window", r.N(300, 30000), func(c *vk.Case) {
+		rng := c.Rng
+		inv := genMergeInventory(rng, rng.Range(1, 4), 10)
+		base := int64(1700000000) * 1e9
+		start := base - 1e9 + int64(rng.Intn(3))*5e8
+		end := base + int64(rng.Range(1, 12))*5e8 + vk.Pick(rng, []int64{0, 1, 250e6, 500e6, 999999999, 123456789})
+		fd := newFakeDocker(inv)
+		fd.FilterByTime = true
+		q := dockerQuerier(fd)
+		it, err := q.SelectLogs(context.Background(), otelstorage.Timestamp(start), otelstorage.Timestamp(end), logqlengine.SelectLogsParams{})
+		det := map[string]any{"inventory": inv, "start": start, "end": end}
+		if err != nil {
+			c.Fail("", "SelectLogs failed: "+err.Error(), det)
+			return
+		}
+		got := map[string][]mergedRec{}
+		var rec logstorage.Record
+		total := 0
+		for it.Next(&rec) && total < 100000 {
+			cid := ""
+			if v, ok := rec.ResourceAttrs.AsMap().Get("container_id"); ok {
+				cid = v.Str()
+			}
+			got[cid] = append(got[cid], mergedRec{TS: int64(rec.Timestamp), Line: rec.Body, CID: cid})
+			total++
+		}
+		iterErr := it.Err()
+		_ = it.Close()
+		c.Eval(1)
+		det["delivered"], det["log_requests"] = got, fd.Calls
+		if iterErr != nil {
+			c.Fail("", "merge failed without any fault: "+iterErr.Error(), det)
+			return
+		}
+		for _, cs := range inv {
+			var served []Frame
+			for _, call := range fd.Calls {
+				if call.ID == cs.ID {
+					served = append(served, filterFrames(cs.Frames, call.Since, call.Until)...)
+				}
+			}
+			// delivered must be a subsequence of what was served ...
+			d, matched := got[cs.ID], make([]bool, len(served))
+			j := 0
+			for _, g := range d {
+				for j < len(served) && !(served[j].TS == g.TS && served[j].Body == g.Line) {
+					j++
+				}
+				if j == len(served) {
+					c.Fail("", fmt.Sprintf("container %s: record (%d, %q) was delivered but the daemon did not serve it at that place of the log (out of order, twice, or invented)", cs.ID, g.TS, g.Line), det)
+					return
+				}
+				matched[j] = true
+				j++
+			}
+			// ... that holds every served record lying inside the window
+			for k, f := range served {
+				if f.TS >= start && f.TS <= end && !matched[k] {
+					c.Fail("", fmt.Sprintf("container %s: record (%d, %q) lies inside the window [%d, %d] and was served by the daemon, but was not delivered", cs.ID, f.TS, f.Body, start, end), det)
+					return
+				}
+				if f.TS >= start && f.TS <= end {
+					c.Count("window_records_required", 1)
+				}
+			}
+		}
+		c.Count("window_merges", 1)
+		c.Nontrivial(fmt.Sprintf("window|%d", c.Idx))
+	})
+	r.Require("window_records_required", 500)
 
 	blocks, distinct := collectRaceReports("C04")
 	r.SetExtra("race_report_blocks", blocks)
